@@ -57,6 +57,11 @@ def make_mask(seed, lead, K, T, kind, tag):
     elif base == 'f32small':
         # single-precision mask whose sum over time is far below the float32 machine epsilon (but far above 1e-10)
         m = (r.integers(1, 4, size=shape).astype(np.float32) * np.float32(1e-9))
+    elif base == 'nearone':
+        # a mask that is ALMOST normalised already: its sum over time is 1 + 3e-6 (an estimated posterior after
+        # an approximate normalisation), not 1
+        m = r.integers(1, 5, size=shape).astype(float)
+        m = m / m.sum(-1, keepdims=True) * (1 + 3e-6)
     else:
         raise ValueError(kind)
     return m
@@ -234,7 +239,7 @@ def subchecks(tier, seed):
     thorough = tier == 'thorough'
     subs = []
     kinds = ('none', 'time_float', 'time_bool', 'time_zero', 'time_onehot', 'time_x1000', 'time_f32small',
-             'src_float', 'src_bool', 'src_zero', 'src_f32small')
+             'src_float', 'src_bool', 'src_zero', 'src_f32small', 'time_nearone', 'src_nearone')
     triples = TRIPLES if thorough else TRIPLES[:8]
 
     def cases():
